@@ -102,6 +102,25 @@ FVal(lazy) == UNION { { <<Rule(<<Dl(".", FALSE), I("a", FALSE)>>, <<Decl(p, v)>>
                  d \in UNION { NumToks(n) : n \in 1..6 } }
         \cup { <<Rule(<<I("li", FALSE), Col(FALSE), Fn("nth-child", <<Dim(29, "n", FALSE), Num(30, FALSE)>>, FALSE)>>, <<Decl("z-index", <<Num(n, FALSE)>>)>>)>> : n \in Pool }
 
+(* calc(): every operand kind on either side of every operator, at the top of calc(), inside parentheses and inside
+   functions nested in it, with the operator's white space present (where css-values requires it, around + and -)
+   or absent (around * and /) *)
+CalcOperands == { <<Dim(3, "px", FALSE)>>, <<Dim(2, "rpx", FALSE)>>, <<Pct(4, FALSE)>>, <<Num(2, FALSE)>>, <<I("pi", FALSE)>>,
+                  <<Par(<<Dim(3, "px", FALSE), Dl("+", TRUE), Dim(3, "em", TRUE)>>, FALSE)>>,
+                  <<Par(<<Dim(2, "rpx", FALSE), Dl("*", FALSE), Num(2, FALSE)>>, FALSE)>>,
+                  <<Fn("var", <<I("--x", FALSE)>>, FALSE)>>,
+                  <<Fn("min", <<Dim(3, "px", FALSE), Dl("-", TRUE), Dim(2, "rpx", TRUE), Com(FALSE), Pct(4, TRUE)>>, FALSE)>>,
+                  <<Fn("calc", <<Num(1, FALSE), Dl("+", TRUE), Num(2, TRUE)>>, FALSE)>>,
+                  <<Num(8, FALSE)>> }      \* pool entry 8: a negative number, so that `- -1` is met
+CalcSums == { l \o <<Dl(op, TRUE)>> \o SetW(r, TRUE) : l \in CalcOperands, r \in CalcOperands, op \in {"+", "-"} }
+       \cup { l \o <<Dl(op, w1)>> \o SetW(r, w2) : l \in CalcOperands, r \in CalcOperands, op \in {"*", "/"}, w1 \in BOOLEAN, w2 \in BOOLEAN }
+CalcWraps(e) == { <<Fn("calc", e, FALSE)>>, <<Fn("calc", <<Par(e, FALSE), Dl("*", TRUE), Num(2, TRUE)>>, FALSE)>>,
+                  <<Fn("calc", <<Fn("max", e \o <<Com(FALSE), Dim(3, "px", TRUE)>>, FALSE)>>, FALSE)>>,
+                  <<Fn("translate", <<Fn("calc", e, FALSE), Com(FALSE), Num(1, TRUE)>>, FALSE)>> }
+FCalc(lazy) == { <<Rule(<<Dl(".", FALSE), I("a", FALSE)>>, <<Decl(p, v)>>)>> : v \in UNION { CalcWraps(e) : e \in CalcSums }, p \in {"width"} }
+          \cup { <<At("media", <<Par(<<I("min-width", FALSE), Col(FALSE), Fn("calc", e, TRUE)>>, TRUE)>>, "rules",
+                     <<Rule(<<I("p", FALSE)>>, Red)>>)>> : e \in {x \in CalcSums : x[2].v \in {"+", "-"}} }
+
 (* spelling-sensitive values and every token kind *)
 FTok(lazy) == { <<Rule(<<Dl(".", FALSE), I("a", FALSE)>>, <<Decl(p[1], p[2])>>)>> : p \in {
             <<"color", <<Hx("0a0", FALSE)>>>>, <<"color", <<Hx("00FF00aa", FALSE)>>>>, <<"content", <<Str("a \"q\" \\ b", FALSE)>>>>,
@@ -149,10 +168,11 @@ FImport(lazy) == { <<Import(f, p, l, s, m)>> : f \in {"string", "url"}, p \in Im
 ImportOpts == {[NoOpt EXCEPT !.importSign = s, !.prefix = p] : s \in {"none", "IMP"}, p \in {"none", "p"}}
 
 -----------------------------------------------------------------------------
-Sheets == CASE Family = "sel" -> FSel(0) [] Family = "val" -> FVal(0) [] Family = "tok" -> FTok(0)
+Sheets == CASE Family = "sel" -> FSel(0) [] Family = "val" -> FVal(0) [] Family = "tok" -> FTok(0) [] Family = "calc" -> FCalc(0)
             [] Family = "host" -> FHost(0) [] Family = "import" -> FImport(0)
 SelOpts == {NoOpt, [NoOpt EXCEPT !.prefix = "p", !.sign = "S"], [NoOpt EXCEPT !.prefix = "~E~x"], [NoOpt EXCEPT !.prefix = ""]}
 Opts == CASE Family = "sel" -> (IF Scale = "quick" THEN SelOpts ELSE PrefixOpts) [] Family = "tok" -> PrefixOpts [] Family = "val" -> {NoOpt, [NoOpt EXCEPT !.prefix = "p"]}
+          [] Family = "calc" -> {NoOpt}
           [] Family = "host" -> HostOpts [] Family = "import" -> ImportOpts
 
 Init == sheet \in {Label(s) : s \in Sheets} /\ opt \in Opts
